@@ -85,6 +85,17 @@ def instance(rng):
     # option variants under which the stored objective of a point is recomputed: sample averaging (a deterministic objective
     # sampled twice) and soft restarts that append points to a full interpolation set
     variant = "nsamples2" if u < 0.15 else ("soft-restarts-increase-npt" if u < 0.3 else ("momentum-extra-steps" if (u < 0.42 and bounded) else "default"))
+    if 0.42 <= u < 0.5:
+        # hard restarts that re-evaluate the starting point (documented options): the restarted run must see the regulariser too
+        variant = "hard-restarts-fresh-rk"
+    elif 0.5 <= u < 0.58:
+        # the documented noise-level exit, started from the UNregularised least-squares fit (residual smaller than at the
+        # solution, F larger): 'all points within noise level' must be judged on the regularised objective
+        variant = "noise-level-warm-start"
+        x0 = np.linalg.lstsq(A, b, rcond=None)[0]
+        if bounded:
+            lo = x0 - 0.5 - rng.random(n) * 1.5
+            hi = x0 + 0.5 + rng.random(n) * 1.5
     with_args = bool(rng.random() < 0.5)
     if u >= 0.82:
         return near_face_instance(rng, with_args)
@@ -176,6 +187,11 @@ def run_instance(dfols, I):
         kw["npt"] = 2 * I["n"] + 1
         kw["user_params"] = {"regression.num_extra_steps": 2, "regression.momentum_extra_steps": True}
         kw["maxfun"] = 60 * (I["n"] + 1)
+    elif I.get("variant") == "hard-restarts-fresh-rk":
+        kw["user_params"] = {"restarts.use_restarts": True, "restarts.use_soft_restarts": False, "restarts.hard.use_old_rk": False}
+        kw["maxfun"] = 60 * (I["n"] + 1)
+    elif I.get("variant") == "noise-level-warm-start":
+        kw["user_params"] = {"noise.quit_on_noise_level": True, "noise.additive_noise_level": 1e-6}
     elif I.get("variant") == "momentum-near-face":
         kw["npt"] = I["npt"]
         kw["user_params"] = {"regression.num_extra_steps": 2, "regression.momentum_extra_steps": True}
@@ -339,7 +355,7 @@ def search(ctx):
             stats["momentum_runs_not_judged_for_optimality"] = stats.get("momentum_runs_not_judged_for_optimality", 0) + 1
         elif not (gap <= 1e-3 * (1 + Fs)):
             ctx.fail("C06:not-optimal|" + tag, "F(soln.x)=%r but F*=%r (gap %.2e > 1e-3(1+F*)), flag %d after %d evals" % (max(float(s.obj), Fx), Fs, gap, s.flag, s.nf), rp)
-        elif s.flag != 0 and not (I.get("variant") == "soft-restarts-increase-npt" and s.flag == 1):
+        elif s.flag != 0 and not (I.get("variant") in ("soft-restarts-increase-npt", "hard-restarts-fresh-rk") and s.flag == 1):
             # (with restarts switched on a run legitimately continues until the budget is spent: flag 1 is not held against it)
             ctx.fail("C06:optimal-but-flag=%d|%s" % (s.flag, tag), "objective within tolerance but flag %d (%s)" % (s.flag, s.msg), rp)
         else:
